@@ -57,6 +57,13 @@ SECOND_INSTANCE_BODIES = [
     ["global $d", "start ActAAction()", "if $d == 0", "  abort", "match E1()", "$d = 0"],
     ["global $d", "send Tick()", "$x = 10 / $d", "match E1()", "$d = 0"],
     ["global $d", "await h2", "$x = 10 / $d", "match E1()", "$d = 0"],
+    # ... or *finishes* before its first wait: the path through the flow depends on what the first instance changed
+    ["global $d", "if $d == 1", "  match E1()", "  $d = 0"],
+    ["global $d", "if $d == 1", "  match E1()", "  $d = 0", "send Tick()"],
+    ["global $d", "while $d == 1", "  match E1()", "  $d = 0"],
+    ["global $d", "if $d == 0", "  return 1", "match E1()", "$d = 0"],
+    ["global $d", "start ActAAction()", "if $d == 1", "  match E1()", "  $d = 0"],
+    ["global $d", "when E1()", "  $d = 0", "or when Check(d=$d)", "  send Tick()"],
 ]
 
 
@@ -69,7 +76,7 @@ def t_programs():
                 main = "flow main\n  global $d\n  $d = 1\n  activate g\n  match Never()\n"
                 src = g + "\n" + h2 + "\n" + main
             else:
-                gg = g.replace('  $d = 0\n', '')
+                gg = "flow g\n" + ind([l for l in gb if l.strip() != "$d = 0"] if not any(l.startswith("  ") and l.strip() == "$d = 0" and gb[gb.index(l) - 1].strip().startswith(("if", "while", "when")) for l in gb) else [("  pass" if l.strip() == "$d = 0" else l) for l in gb])
                 other = "flow other\n  global $d\n  match E2()\n  $d = 0\n"
                 main = "flow main\n  global $d\n  $d = 1\n  activate g\n  activate other\n  match Never()\n"
                 src = gg + "\n" + h2 + "\n" + other + "\n" + main
@@ -527,6 +534,123 @@ def fault_task(task):
     return res
 
 
+
+# ----------------------------------------------------------------------------- part G
+# Faults that need a second flow to show: a child of the faulty flow waiting for the same event, a flow event
+# (FlowStarted / FlowFinished / FlowFailed) as the subject of the faulty match, an argument that turns faulty
+# between the moment the head reached its `send` and the resolution of the action conflict, an event sent without
+# an optional argument.  Every program has the same bystander / error watcher as part F; all histories over
+# {E1, E2, X} up to the length bound go through process_events.
+_G_BY = '@loop("by")\nflow bystander\n  match E1()\n  send By1()\n  match E2()\n  send By2()\n  match E3()\n  send By3()\n  match Never()\n'
+_G_WATCH = '@loop("watch")\nflow errwatch\n  match ColangError()\n  send ErrSeen()\n'
+
+
+def _g_main(body):
+    return "flow main\n  activate errwatch\n  start bystander\n" + ind(body) + "  match Never()\n"
+
+
+def g_programs():
+    out = []
+    # (a) the faulty flow has a running child that waits for an event of the same name
+    for fault in ('regex("(")', "less_than(3)", "1/0"):
+        for how_child in ("start vchild", "activate vchild", "start vchild\n  start vchild2"):
+            for vstart in ("start victim", "activate victim"):
+                src = ("flow vchild\n  match E1()\n  send VChild()\n  match Never()\n\nflow vchild2\n  match E1(p=\"x\")\n  match Never()\n\n"
+                       f"flow victim\n  {how_child}\n  match E1(p={fault})\n  send VictimAfter()\n  match Never()\n\n"
+                       "flow launcher\n  " + vstart + "\n  match Never()\n\n" + _G_BY + "\n" + _G_WATCH + "\n"
+                       + _g_main(["when launcher", "  send L1()", "else", "  send L2()"]))
+                out.append((f"child-waits-for-same-event:{fault}:{how_child.split()[0]}{'2' if 'vchild2' in how_child else ''}:{vstart.split()[0]}", src, "E1"))
+    # (b) the faulty match is on a flow event; `ticker` finishes on E1, `failer` fails on E2
+    for kind in ("FlowFinished", "FlowFailed", "FlowStarted"):
+        for fault in ("1/0", "$names[1]"):
+            for vstart in ("start victim", "activate victim"):
+                src = ("flow ticker\n  match E1()\n\nflow failer\n  match E2()\n  abort\n\n"
+                       f"flow victim\n  $names = [\"ticker\"]\n  match {kind}(flow_id={fault})\n  send VictimAfter()\n  match Never()\n\n"
+                       "flow launcher\n  " + vstart + "\n  match Never()\n\n" + _G_BY + "\n" + _G_WATCH + "\n"
+                       + _g_main(["activate ticker", "activate failer", "when launcher", "  send L1()", "else", "  send L2()"]))
+                out.append((f"faulty-match-on-flow-event:{kind}:{fault}:{vstart.split()[0]}", src, None))
+    # (c) the argument of a `send` is fine when the head arrives and faulty when the action conflict is resolved
+    for order in ("a-first", "b-first"):
+        fa = "flow a\n  global $items\n  match E1()\n  send Foo(item=$items[0])\n"
+        fb = "flow b\n  global $items\n  match E1()\n  $items = []\n  send Bar()\n"
+        acts = ["activate a", "activate b"] if order == "a-first" else ["activate b", "activate a"]
+        src = fa + "\n" + fb + "\n" + _G_BY + "\n" + _G_WATCH + "\n" + "flow main\n  global $items\n  $items = [\"x\"]\n  activate errwatch\n  start bystander\n" + ind(acts) + "  match Never()\n"
+        out.append((f"argument-turns-faulty-before-conflict-resolution:{order}", src, None))
+    # (d) internal events sent without their optional arguments
+    for stmt in ('send StartFlow(flow_id="helper")', 'send StopFlow(flow_id="helper")', 'send FinishFlow(flow_id="helper")',
+                 'send StartFlow(flow_id="nosuchflow")', 'send StopFlow(flow_id="nosuchflow")'):
+        src = ("flow helper\n  match E2()\n  send HelperDone()\n\n" + f"flow a\n  match E1()\n  {stmt}\n  match Never()\n\n"
+               + _G_BY + "\n" + _G_WATCH + "\n" + _g_main(["activate a"]))
+        out.append((f"internal-event-without-optional-arguments:{stmt.split('(')[0].split()[1]}:{'unknown-flow' if 'nosuch' in stmt else 'helper'}", src, None))
+    return out
+
+
+def g_task(task):
+    name, src, err_on, maxlen = task
+    res = {"programs": 1, "histories": 0, "events": 0, "bystander_reactions": 0, "viol": []}
+    info0 = {"engine": "C10-F", "source": src, "family": name}
+    try:
+        rt = _runtime(src)
+    except Exception as e:
+        res["viol"].append((f"program-rejected:{name}", f"{e!r}", info0))
+        return res
+    n_elements = sum(len(c.elements) for c in rt.flow_configs.values())
+    budget = 50 * (n_elements + 10)
+    loop = asyncio.new_event_loop()
+    alpha = [{"type": "E1", "p": "x"}, {"type": "E2", "p": "x"}, {"type": "E3", "p": "x"}, {"type": "X"}]
+    hung = False
+    try:
+        for n in range(0, maxlen + 1):
+            for hist in itertools.product(alpha, repeat=n):
+                if hung:
+                    break
+                res["histories"] += 1
+                res["events"] += n
+                info = dict(info0, history=[h["type"] for h in hist])
+                try:
+                    signal.signal(signal.SIGALRM, _alarm)
+                    signal.alarm(30)
+                    outs, _state = run_history(rt, hist, loop, budget)
+                except (seams.StepBudgetExceeded, WallClockExceeded) as e:
+                    res["viol"].append((f"non-termination:{name}", f"process_events: one run_to_completion exceeded the step budget {budget}: {type(e).__name__} {e}", info))
+                    hung = True
+                    loop.close()
+                    loop = asyncio.new_event_loop()
+                    continue
+                except Exception as e:
+                    res["viol"].append((f"exception-escapes-process_events:{name}", f"{type(e).__name__}: {e}", info))
+                    continue
+                finally:
+                    signal.alarm(0)
+                by = 0
+                for i, h in enumerate(hist, start=1):
+                    exp_by = []
+                    if by < 3 and h["type"] == f"E{by + 1}":
+                        by += 1
+                        exp_by = [f"By{by}"]
+                        res["bystander_reactions"] += 1
+                    got_by = [o for o in outs[i] if o.startswith("By")]
+                    if got_by != exp_by:
+                        res["viol"].append((f"bystander-disturbed:{name}", f"history {[x['type'] for x in hist]}: on event #{i} {h['type']} the unrelated flow emitted {got_by}, expected {exp_by}", info))
+                        break
+                else:
+                    if err_on is not None:
+                        k = next((i for i, h in enumerate(hist, start=1) if h["type"] == err_on), None)
+                        if k is not None and "ErrSeen" not in outs[k]:
+                            res["viol"].append((f"colang-error-not-reported:{name}", f"history {[x['type'] for x in hist]}: the faulty match is evaluated on event #{k} but no ColangError was observable (outputs {outs})", info))
+                        if k is not None and any("VictimAfter" in o for o in outs):
+                            res["viol"].append((f"victim-continued-after-fault:{name}", f"VictimAfter emitted; outputs {outs}", info))
+    finally:
+        loop.close()
+    seen, uniq = set(), []
+    for v in res["viol"]:
+        if v[0] not in seen:
+            seen.add(v[0])
+            uniq.append(v)
+    res["viol"] = uniq
+    return res
+
+
 ACTIVE_BODIES = [["abort"], ["$x = 1/0"], ["start ActAAction()", "abort"], ["start ActAAction()", "$x = 1/0"], ["send Tick()", "$x = 1/0"],
                  ["send Tick()"], ["match E1()", "abort"], ['priority "x"'], ["start ActAAction()", "match $nope.Finished()"]]
 
@@ -614,6 +738,15 @@ def run(rep, tier):
             rep.violation(sig, what, info)
     for k, v in xs.items():
         rep.set("escaping_error_" + k, v)
+    gs = {"programs": 0, "histories": 0, "events": 0, "bystander_reactions": 0}
+    for r in par.pmap(g_task, [(n, src, err_on, 2 if tier == "quick" else 3) for n, src, err_on in g_programs()]):
+        for k in gs:
+            gs[k] += r[k]
+        for sig, what, info in r["viol"]:
+            rep.violation(sig, what, info)
+    for k, v in gs.items():
+        rep.set("two_flow_fault_" + k, v)
+    agg["bystander_reactions"] += gs["bystander_reactions"]
     act = {"programs": 0, "histories": 0}
     for r in par.pmap(active_task, ACTIVE_BODIES):
         act["programs"] += r["programs"]; act["histories"] += r["histories"]
@@ -673,7 +806,7 @@ def replay(rp):
         loop = asyncio.new_event_loop()
         hist = [{"type": t, "p": "x"} if t != "X" else {"type": "X"} for t in rp["history"]]
         try:
-            outs, _ = run_history(rt, hist, loop)
+            outs, _ = run_history(rt, hist, loop, 200000)
             print(rp["source"])
             for ev, o in zip(["<start>"] + rp["history"], outs):
                 print(ev, "->", o)
